@@ -52,7 +52,7 @@ def check_center_scale(rng):
 def check_bs(rng):
     from formulae.transforms import BSpline
     out = []
-    for x in vectors(rng)[:6]:
+    for x in vectors(rng)[:6] + [np.array([4, 4, 4, 5, 5, 6, 6, 6, 6.0])]:        # (the last one: the witness of C14-knot-on-boundary)
         lo, hi = x.min(), x.max()
         grid = np.linspace(lo, hi, 41)
         for degree, icpt in itertools.product(range(0, 6), (False, True)):
@@ -94,6 +94,12 @@ def check_bs(rng):
                             err = "with intercept=True the basis does not sum to one inside the boundary knots"
                         elif icpt and not np.allclose(B.sum(axis=1), 1, atol=1e-9):
                             err = "with intercept=True the basis does not sum to one on the training data"
+                    if err and "sum to one" in err:
+                        # known-finding class C14-knot-on-boundary: an inner knot coincides with a boundary knot (only possible through
+                        # ties: an equally spaced quantile of x equals min(x) or max(x), or an explicit knot on the boundary)
+                        inner = np.asarray(t._knots)[order:len(t._knots) - order]
+                        if len(inner) and (np.any(inner == t._knots[0]) or np.any(inner == t._knots[-1])):
+                            err = "known:C14-knot-on-boundary " + err
                     out.append((tag, err or "ok"))
     # explicit bounds, including bounds equal to zero
     x = rng.uniform(2, 9, size=25)
@@ -223,10 +229,15 @@ def run(report, findings):
         rng = np.random.default_rng(common.seed() + i)
         res += check_center_scale(rng) + check_bs(rng) + check_poly(rng) + check_through_design(rng)
     evals = ok = bad = 0
+    fk = {f["id"] for f in findings if f.get("kind") == "finding"}
     for tag, sig in res:
         evals += 1
         if sig == "ok":
             ok += 1
+            continue
+        if sig.startswith("known:") and sig.split()[0][6:] in fk:
+            fid = sig.split()[0][6:]
+            report.known_hits[fid] = report.known_hits.get(fid, 0) + 1
             continue
         bad += 1
         if bad <= 10:
